@@ -204,3 +204,61 @@ def accessors(chk, prefix="C09"):
                 goal = z3.And(goal, z3.Not(has_err), z3.BoolVal(v is None))
         chk.prove(f"{prefix}.result.throw_if_error", s.pc, goal, desc="throw_if_error raises a CallableRuntimeError carrying message/type/data of the FIRST item with status FAILED (when that item has an error) and returns None otherwise", describe=_describe("throw_if_error", status, S), replay=_replay)
     return eng
+
+
+def summary_generators(chk, prefix="C16"):
+    """MapSummaryGenerator / ParallelSummaryGenerator (the default summary of an oversized map / parallel result): the summary is the JSON text of a
+    FIXED, small set of fields - counts and enum values - so its size does not grow with the results it stands for (it is what gets recorded when the
+    result itself is above the 256 KB checkpoint limit), and producing it does not raise for any batch result."""
+    class H(AccHooks):
+        def ext_call(self, eng, st, name, args, kwargs):
+            if name == "json.dumps":
+                st.emit("dumps", arg=args[0], kwargs=dict(kwargs))
+                return [("val", fresh("str", "summary_text"), st)]
+            return AccHooks.ext_call(self, eng, st, name, args, kwargs)
+    for q, label in (("operation.map.MapSummaryGenerator", "map"), ("operation.parallel.ParallelSummaryGenerator", "parallel")):
+        eng = Engine(hooks=H())
+        P = eng.program
+        cls = P.cls("concurrency.models.BatchResult")
+        icls = P.cls("concurrency.models.BatchItem")
+        scls = P.cls("concurrency.models.BatchItemStatus")
+        st = St()
+        n = fresh("int", "n_items")
+        st.assume(n.t >= 0)
+        err = st.alloc(P.cls("lambda_service.ErrorObject"), {"message": eng.sym_of_type("str | None", "err_message", st), "type": eng.sym_of_type("str | None", "err_type", st),
+                                                            "data": eng.sym_of_type("str | None", "err_data", st), "stack_trace": None})
+        item = st.alloc(icls, {"index": fresh("int", "item_index"), "status": fresh("enum", "item_status", scls), "result": mk_opt(z3.Bool("item_result_is_none"), fresh("any", "item_result")),
+                               "error": mk_opt(z3.Bool("item_error_is_none"), err)})
+        items = st.alloc("list", {"__kind__": "glist", "len": n.t, "elem": item})
+        result = st.alloc(cls, {"all": items, "completion_reason": fresh("enum", "reason", P.cls("concurrency.models.CompletionReason"))})
+        gcls = P.cls(q)
+        gen = st.alloc(gcls, {})
+        chk.function(q + ".__call__", "verified (accessors inlined on a generic item)")
+        name = f"{prefix}.summary.bounded.{label}"
+        for k, v, s in eng.run(gcls.find_method("__call__"), [gen, result], st=st):
+            chk.paths += 1
+            if k != "val":
+                chk.prove(name, s.pc, F, desc=f"{gcls.name}.__call__ does not raise for any batch result")
+                continue
+            dumps = [e for e in s.trace if e.kind == "dumps"]
+            ok = len(dumps) == 1 and not dumps[0].kwargs and isinstance(dumps[0].arg, Ref) and s.get(dumps[0].arg).get("__kind__") == "dict" and not s.get(dumps[0].arg)["open"] and is_sym(v, "str")
+            conj, odd = [], []
+            if ok:
+                ent = s.get(dumps[0].arg)["e"]
+                ok = len(ent) <= 12
+                for key, (present, val) in ent.items():
+                    if isinstance(val, bool) or isinstance(val, int) or is_sym(val, "int") or is_sym(val, "bool") or val is None:
+                        continue                                      # a count: O(log n) digits
+                    if isinstance(val, str):
+                        if len(val) > 64:
+                            odd.append(key)
+                        continue
+                    if is_sym(val, "str"):
+                        conj.append(z3.Length(val.t) <= 64)           # an enum value: one of finitely many constants
+                        continue
+                    odd.append(key)                                   # a list / dict / object: grows with the result
+            chk.prove(name, s.pc, z3.And(z3.BoolVal(ok and not odd), *conj),
+                      desc="the default summary is json.dumps (default flags) of a closed dictionary of at most 12 fields whose values are counts or strings of at most 64 characters "
+                           "(enum values, a type tag): its size does not depend on the item results, so it fits the checkpoint limit the full result exceeded"
+                           + (f"; fields that are not a count or a short string: {odd}" if odd else ""),
+                      sample=f"{gcls.name}()(arbitrary BatchResult)")
